@@ -1,72 +1,94 @@
 (* C03 — parsed expressions follow Modelica precedence and literal values.
    Property theorems only; proofs live in Proofs/C03_prec.v (round trip) and Proofs/C03_value.v.
    Reading: `pr 0 e` is the text of the source tree e printed by the grammar levels of the Modelica
-   SPECIFICATION (minimal parentheses plus any redundant ones, `SPar`); `parse_antlr t` is the
-   pymoca parser (ANTLR4 precedence climbing driven by the table t of alternatives of rule `expr`
-   in Modelica.g4); `strip e` is the tree the specification gives that text. *)
+   SPECIFICATION (minimal parentheses plus any redundant ones, `SPar`); `parse_antlr t lt` is the
+   pymoca parser: ANTLR4 precedence climbing driven by the table t of alternatives of rule `expr`
+   in Modelica.g4, nodes built as the listener table lt (parser.py exit* handlers) says;
+   `strip e` is the tree the specification gives that text.
+   Both tables are regenerated from the sources on every run and the side conditions `tab_ok`,
+   `listener_ok` are checked by vm_compute (Tie_C03.v). *)
 From Coq Require Import List Arith ZArith QArith Bool.
 From PV Require Import Model.C03_prec Lib.C03_spec Proofs.C03_prec Proofs.C03_value.
 Import ListNotations.
 
-(* For every table that agrees with Modelica.g4's on operator levels (checked for the regenerated
-   table on every run, run/C03/Tie_C03.v), every source tree over atoms, unary + - not, every binary
-   operator, ^ .^, if-then-else and redundant parentheses: the parser accepts the printed text and returns
-   `resign e` = the intended tree except that a sign written in front of an unparenthesised
-   product sits on the left-most factor.
-   _partial: function calls and `elseif` branches are not covered by this theorem; they are in
-   the executable model and are checked against the real parser and the value oracle on every run. *)
-Theorem C03_roundtrip_partial (t : table) (e : sexpr) :
-  tab_ok t = true -> wf e = true ->
-  exists fuel, parse_antlr t fuel (pr 0%nat e) = Some (resign e).
-Proof. exact (roundtrip t e). Qed.
-Print Assumptions C03_roundtrip_partial.
+(* The whole expression language of the property: variables, literals, unary + - not, the 16 binary
+   operators, ^ .^, if-then-{elseif-then}-else, calls f(e1, ..., en) and der(..) whose arguments are
+   full expressions, and arbitrarily placed redundant parentheses.  The parser accepts the printed
+   text and returns `resign e` = the intended tree except that a sign written in front of an
+   unparenthesised product sits on the left-most factor. *)
+Theorem C03_roundtrip (t : table) (lt : ltable) (e : sexpr) :
+  tab_ok t = true -> listener_ok lt = true -> wf e = true ->
+  exists fuel, parse_antlr t lt fuel (pr 0%nat e) = Some (resign e).
+Proof. exact (roundtrip t lt e). Qed.
+Print Assumptions C03_roundtrip.
 
 (* the same with the fuel made explicit: every sufficiently large fuel gives that answer *)
-Theorem C03_roundtrip_fuel_partial (t : table) (e : sexpr) :
-  tab_ok t = true -> wf e = true ->
-  exists fuel, forall F, (fuel <= F)%nat -> parse_antlr t F (pr 0%nat e) = Some (resign e).
-Proof. exact (roundtrip_fuel t e). Qed.
-Print Assumptions C03_roundtrip_fuel_partial.
+Theorem C03_roundtrip_fuel (t : table) (lt : ltable) (e : sexpr) :
+  tab_ok t = true -> listener_ok lt = true -> wf e = true ->
+  exists fuel, forall F, (fuel <= F)%nat -> parse_antlr t lt F (pr 0%nat e) = Some (resign e).
+Proof. exact (roundtrip_fuel t lt e). Qed.
+Print Assumptions C03_roundtrip_fuel.
 
 (* ... and that tree has the value of the intended tree, for every valuation of the variables and
-   every interpretation of the functions (exact rationals and Booleans, strict errors). Together:
-   the parsed tree evaluates to the value Modelica's precedence and associativity give the text. *)
+   every interpretation of the called functions (exact rationals and Booleans, strict errors).
+   Together: the parsed tree evaluates to the value Modelica's precedence and associativity give. *)
 Theorem C03_value (rho : positive -> val) (fn : fname -> list val -> val) (e : sexpr) :
   eval rho fn (resign e) = eval rho fn (strip e).
 Proof. exact (value_resign rho fn e). Qed.
 Print Assumptions C03_value.
 
 (* literals: an all-digit text is the integer it denotes in positional notation ... *)
-Theorem C03_literals_int (ds : digits) : num_value (mkNum ds None None) = VInt (posval ds).
-Proof. exact (literal_int ds). Qed.
+Theorem C03_literals_int (lt : ltable) (ds : digits) :
+  listener_ok lt = true -> num_value_lt lt (mkNum ds None None) = VInt (posval ds).
+Proof. exact (literal_int_lt lt ds). Qed.
 Print Assumptions C03_literals_int.
 
 (* ... a text with a fraction and/or exponent is the real (int + frac/10^|frac|) * 10^exp
    (binary64 rounding of float() is not modelled) *)
-Theorem C03_literals_real (ip : digits) (fr : option digits) (ex : option (bool * digits)) :
-  (fr <> None \/ ex <> None) ->
-  exists q, num_value (mkNum ip fr ex) = VReal q /\ Qeq q (dec_value ip fr ex).
-Proof. exact (literal_real ip fr ex). Qed.
+Theorem C03_literals_real (lt : ltable) (ip : digits) (fr : option digits) (ex : option (bool * digits)) :
+  listener_ok lt = true -> (fr <> None \/ ex <> None) ->
+  exists q, num_value_lt lt (mkNum ip fr ex) = VReal q /\ Qeq q (dec_value ip fr ex).
+Proof. exact (literal_real_lt lt ip fr ex). Qed.
 Print Assumptions C03_literals_real.
 
-(* strings: exact for texts without escape sequences; REFUTED in general (known finding
-   string-escape-not-decoded: the source text a, backslash, double quote, b stays 4 characters) *)
+(* strings: what the code does is exactly the raw body between the outer quotes ... *)
+Theorem C03_string_raw (lt : ltable) (raw : string) :
+  listener_ok lt = true -> str_value_lt lt raw = VStr raw.
+Proof. exact (string_raw lt raw). Qed.
+Print Assumptions C03_string_raw.
+
+(* ... which is the exact value when the body has no escape sequence ... *)
 Theorem C03_string_escape_free (raw : string) :
   escape_free raw = true -> str_value raw = VStr (decode raw).
 Proof. exact (string_escape_free raw). Qed.
 Print Assumptions C03_string_escape_free.
 
-Theorem C03_string_escape_refuted : exists raw, str_value raw <> VStr (decode raw).
-Proof. exact string_escape_refuted. Qed.
+(* ... and is NOT the exact value for EVERY body containing an escape sequence
+   (known finding string-escape-not-decoded) *)
+Theorem C03_string_escape_refuted (lt : ltable) (raw : string) :
+  listener_ok lt = true -> has_escape raw = true -> str_value_lt lt raw <> VStr (decode raw).
+Proof. exact (string_escape_always_wrong_lt lt raw). Qed.
 Print Assumptions C03_string_escape_refuted.
 
-(* non-vacuity: the text  - a * b ^ 2 + c  (e = (-(a * b^2)) + c) on the real table *)
+Theorem C03_string_escape_refuted_witness : exists raw, str_value raw <> VStr (decode raw).
+Proof. exact string_escape_refuted. Qed.
+Print Assumptions C03_string_escape_refuted_witness.
+
+(* non-vacuity: the text
+     if p then - a * b ^ 2 + c elseif q then max ( a , ( if p then b else c ) ) else der ( a )
+   on the real tables *)
 Example C03_example :
   let a := SAtom (AVar 1%positive) in let b := SAtom (AVar 2%positive) in let c := SAtom (AVar 3%positive) in
+  let p := SAtom (AVar 4%positive) in let q := SAtom (AVar 5%positive) in
   let two := SAtom (ANum (mkNum [2%nat] None None)) in
-  let e := SBin SPlus (SUn SMinus (SBin SMul a (SBin SPow b two))) c in
-  tab_ok g4 = true /\ wf e = true /\
-  parse_antlr g4 100%nat (pr 0%nat e) =
-    Some (Bin SPlus (Bin SMul (Un SMinus (Var 1%positive)) (Bin SPow (Var 2%positive) (Lit (VInt 2%N)))) (Var 3%positive)).
+  let e := SIf p (SBin SPlus (SUn SMinus (SBin SMul a (SBin SPow b two))) c)
+               [(q, SCall (FName 6%positive) [a; SIf p b [] c])]
+               (SCall FDer [a]) in
+  tab_ok g4 = true /\ listener_ok std_lt = true /\ wf e = true /\
+  parse_antlr g4 std_lt 200%nat (pr 0%nat e) =
+    Some (IfE [Var 4%positive; Var 5%positive]
+              [Bin SPlus (Bin SMul (Un SMinus (Var 1%positive)) (Bin SPow (Var 2%positive) (Lit (VInt 2%N)))) (Var 3%positive);
+               Call (FName 6%positive) [Var 1%positive; IfE [Var 4%positive] [Var 2%positive; Var 3%positive]];
+               Call FDer [Var 1%positive]]).
 Proof. vm_compute. repeat split. Qed.
 Print Assumptions C03_example.
